@@ -118,6 +118,11 @@ def gen_program(rng, length, mix):
                                                 ["colslice", rng.randint(0, 3), rng.choice(VALS[:10])],
                                                 # t[:, col] = [values]: as many as the table has rows, or not (then it is refused)
                                                 ["colvals", rng.randint(0, 3), rand_vals(rng, rng.choice([1, 2, 3, 3, 4]))],
+                                                # a row of the WRONG width (refused: nothing of it may be stored)
+                                                ["rowbad", rng.randint(-1, 3), rand_vals(rng, rng.choice([1, 2, 4, 5]))],
+                                                # t[0:k, :] = <another table the program holds> (k = its rows): cells are copied,
+                                                # the source stays what it was - kinds, values, names
+                                                ["fromtab", s2],
                                                 ["region", rng.choice(VALS[:9])]])])
         elif o == "setattr":
             prog.append(["setattr", s, rng.randint(0, 3), rng.choice([["slot", s2], ["lit", rand_vals(rng, n)], ["tup", rng.randint(0, 2)]])])
@@ -1059,6 +1064,24 @@ def _do_sett(w, t, spec, changed_ok):
         key = (slice(None), ci)
         writes = [(ci, [(i, spec[2]) for i in range(n)])]
         val = spec[2]
+    elif k == "rowbad":
+        ri = spec[1]
+        vals = list(spec[2])
+        if len(vals) == len(cols):
+            vals = vals + [0]
+        key = (ri, slice(None))
+        writes = None
+        val = vals
+    elif k == "fromtab":
+        from serif import Table
+        src = w.slot(spec[1], "t")
+        scols = src.__dict__["_underlying"]
+        m = len(scols[0].__dict__["_underlying"]) if scols else 0
+        if src is t or not scols or len(scols) != len(cols) or not 0 < m <= n:
+            raise Skip()
+        key = (slice(0, m), slice(None))
+        writes = [(ci, [(i, scols[ci].__dict__["_underlying"][i]) for i in range(m)]) for ci in range(len(cols))]
+        val = src
     elif k == "colvals":
         ci = spec[1] % len(cols)
         key = (slice(None), ci) if len(spec[2]) % 2 else (slice(None), cols[ci]._name if isinstance(cols[ci]._name, str) and
@@ -1072,6 +1095,7 @@ def _do_sett(w, t, spec, changed_ok):
         val = spec[1]
     for c in cols:
         w.stats["shared_now"] += bool(sharers(c))
+    cells_before = [tuple(c.__dict__["_underlying"]) for c in cols]
     try:
         t[key] = val
     except AliasError:
@@ -1089,8 +1113,14 @@ def _do_sett(w, t, spec, changed_ok):
         return (_sett_term(w, ht, ws), "ErrAlias")
     except Exception as e:      # noqa: BLE001
         w.stats["failed_ops"] += 1
-        if writes is not None:
+        if writes is not None and k != "fromtab":
             w.findings.append(f"C08-rejects-valid: t[{spec}] raised {type(e).__name__}: {e}"[:200])
+        cells_after = [tuple(c.__dict__["_underlying"]) for c in t.__dict__["_underlying"]]
+        if writes is None and cells_after != cells_before:
+            w.findings.append(f"C02-rejected-stored: the table write {spec} was refused ({type(e).__name__}) but part of it was stored: "
+                              f"columns {cells_before} -> {cells_after} (input that does not fit is rejected, not stored)")
+        if k == "fromtab":
+            raise Skip()
         return (f"ORead {cnat(ht)}", "Ok")
     if writes is None:
         w.findings.append(f"C08-accepts-invalid: table write {spec} on {n} rows was accepted")
